@@ -34,7 +34,8 @@
 (***************************************************************************)
 EXTENDS Naturals, Sequences
 
-CONSTANTS NBuf          \* number of header buffers / credits (4: A B C D)
+CONSTANTS NBuf,         \* number of header buffers / credits (buffer_count; 4: A B C D)
+          KaCmd         \* link command used as keep-alive: 8 = LUP (upstream-facing port), 11 = LDN (downstream_facing)
 
 VARIABLES enabled,      \* `enable` (link in U0)
           expSeq,       \* Rx Header Sequence Number: the number the next accepted header must carry
@@ -64,7 +65,7 @@ rvars == <<enabled, expSeq, pendRst, buf, acks, advPending, credOwed, nextCred, 
 gvars == <<gAcc, gDel, gGood, gAdv, gCred, gRecov>>
 vars  == <<rvars, ev, gvars>>
 
-LGOOD == 0    LCRD == 1    LRTY == 2    LBAD == 3    LUP == 8
+LGOOD == 0    LCRD == 1    LRTY == 2    LBAD == 3    LUP == KaCmd
 Kinds == {"good", "bad5", "bad16"}
 Prev(s) == (s + 7) % 8
 
